@@ -112,6 +112,9 @@ class C19(Prop):
         "PrefVerif.C19.nogrey_partial",
         "PrefVerif.C19x.complete_partial",
         "PrefVerif.C19x.nogrey_exact_partial",
+        "PrefVerif.C19x.complete_on_partial",
+        "PrefVerif.C19x.nogrey_on_partial",
+        "PrefVerif.C19x.lp_model_sound_on",
     ]
     rule = ("profiles over alternatives 1..m (m <= 5): Euclidean by construction (random generic positions), random "
             "strict profiles, single orders; storage order shuffled; oracle = z3 over all axes; non-trivial = >= 2 "
@@ -248,6 +251,11 @@ class C19(Prop):
               "embedding")
         # correspondence with the Lean model of everything up to the LP (alternatives 1..m, m <= 7)
         mlp = replies[1]
+        if mlp.get("modelArrangementDiffers"):
+            self.count("sc-arrangement-drift")       # the pre-check returned another valid arrangement than the model's
+        if obs.get("sc_seen") and mlp.get("usedObservedArrangement") is False:
+            out.append(Problem("disagreement", case, "the arrangement returned by the implementation's pre-check is rejected "
+                               f"by the verified single-crossing checker: {obs['sc_seen']}", "model/sc-arrangement", det))
         cap = obs["lp"]
         reached_model = mlp.get("axis") is not None and mlp["sc"] and mlp["colouringOk"]
         reached_impl = isinstance(cap, dict)
